@@ -134,7 +134,7 @@ def run_case(case, rec=None):
     hook = XsdHook(prs)
     # an undocumented exception is outside what C03 states (it is reported in evidence, class 'crashed');
     # the history stops there because the property promises nothing about the state it leaves behind
-    it = D.Interp(prs, [hook], crash="stop")
+    it = D.Interp(prs, [hook], crash="stop", prefix="C03")
     if start == "rich":
         it.run(D.RICH_PRELUDE)
     it.run(ops)
